@@ -23,6 +23,7 @@ fn gen_cfg(rng: &mut Rng) -> Cfg {
             1 => rng.below(16) as u8,
             _ => 0,
         },
+        wrap: if rng.chance(1, 3) { 1 + rng.below(3) as u8 } else { 0 },
     }
 }
 
@@ -33,6 +34,8 @@ fn build_dispatch(cfg: &Cfg, w: RecMake) -> Dispatch {
             fs = fs | k;
         }
     }
+    let mut b_writer = Some(w.clone());
+    let fs2 = fs.clone();
     let b = tracing_subscriber::fmt()
         .json()
         .flatten_event(cfg.flatten)
@@ -47,10 +50,40 @@ fn build_dispatch(cfg: &Cfg, w: RecMake) -> Dispatch {
         .with_span_events(fs)
         .with_max_level(Level::TRACE)
         .with_writer(w);
-    match &cfg.timer {
-        None => Dispatch::new(b.without_time().finish()),
-        Some(None) => Dispatch::new(b.finish()),
-        Some(Some(t)) => Dispatch::new(b.with_timer(ConstTimer(t.clone())).finish()),
+    if cfg.wrap == 0 {
+        return match &cfg.timer {
+            None => Dispatch::new(b.without_time().finish()),
+            Some(None) => Dispatch::new(b.finish()),
+            Some(Some(t)) => Dispatch::new(b.with_timer(ConstTimer(t.clone())).finish()),
+        };
+    }
+    // the same configuration as a subscriber on a registry, behind the wrappers used to pick a
+    // formatter at run time
+    use tracing_subscriber::prelude::*;
+    type BS = Box<dyn tracing_subscriber::Subscribe<tracing_subscriber::Registry> + Send + Sync>;
+    let w2 = match b_writer.take() { Some(w) => w, None => panic!("HARNESS: writer used twice") };
+    let s = tracing_subscriber::fmt::subscriber()
+        .json()
+        .flatten_event(cfg.flatten)
+        .with_current_span(cfg.cur_span)
+        .with_span_list(cfg.span_list)
+        .with_target(cfg.target)
+        .with_level(cfg.level)
+        .with_thread_ids(cfg.tids)
+        .with_thread_names(cfg.tnames)
+        .with_file(cfg.file)
+        .with_line_number(cfg.line)
+        .with_span_events(fs2)
+        .with_writer(w2);
+    let boxed: BS = match &cfg.timer {
+        None => Box::new(s.without_time()),
+        Some(None) => Box::new(s),
+        Some(Some(t)) => Box::new(s.with_timer(ConstTimer(t.clone()))),
+    };
+    match cfg.wrap {
+        1 => Dispatch::new(tracing_subscriber::registry().with(boxed)),
+        2 => Dispatch::new(tracing_subscriber::registry().with(vec![boxed])),
+        _ => Dispatch::new(tracing_subscriber::registry().with(Some(boxed))),
     }
 }
 
